@@ -145,6 +145,12 @@ def work(case):
             argv = [p] + {"cli": [], "cli-json": ["--json"], "cli-json-unit": ["--json-unit"], "cli-json-binary": ["--json", "--binary"]}[mode]
             so, se = io.StringIO(), io.StringIO()
             old = sys.stdout, sys.stderr
+            # capture at both levels: sys.stdout (what the CLI writes) and file descriptor 1 (what a library that bound
+            # the original sys.stdout at import time - xlrd's logfile - writes)
+            fdcap = tempfile.TemporaryFile()
+            saved_fd = os.dup(1)
+            sys.__stdout__.flush()
+            os.dup2(fdcap.fileno(), 1)
             sys.stdout, sys.stderr = so, se
             code = None
             try:
@@ -152,13 +158,25 @@ def work(case):
             except BaseException as e:
                 if type(e).__name__ == "CpuBudget":
                     sys.stdout, sys.stderr = old
+                    os.dup2(saved_fd, 1)
+                    os.close(saved_fd)
                     raise
                 out["exc"] = obs.exc_record(e, 0)
             finally:
                 sys.stdout, sys.stderr = old
+                try:
+                    sys.__stdout__.flush()
+                except Exception:
+                    pass
+                os.dup2(saved_fd, 1)
+            os.close(saved_fd)
+            fdcap.seek(0)
+            leaked = fdcap.read().decode("utf-8", "replace")
+            fdcap.close()
             out["exit"] = code
-            out["stdout_len"] = len(so.getvalue())
-            out["stdout_head"] = so.getvalue()[:80]
+            out["stdout_len"] = len(so.getvalue()) + len(leaked)
+            out["stdout_leaked_fd1"] = leaked[:120]
+            out["stdout_head"] = (leaked + so.getvalue())[:80]
             errlines = se.getvalue().splitlines()
             out["diag_lines"] = sum(1 for ln in errlines if ln.startswith("sharepoint2text:"))
             out["stderr_head"] = se.getvalue()[:200]
@@ -244,6 +262,8 @@ def judge(run, case, ob):
             return "cli-raised"
         if code not in (0, 1):
             run.violation(f"C01:cli:{mode}:exit-status-{code}", f"CLI exit status {code}", rep)
+        elif code == 0 and ob.get("stdout_leaked_fd1"):
+            run.violation(f"C01:cli:{'json' if 'json' in mode else 'text'}-output:foreign-text-on-stdout", f"CLI exited 0 but a library wrote to the process's stdout besides the result: {ob['stdout_leaked_fd1']!r}", rep)
         elif code == 0 and ob.get("stdout_len", 0) == 0:
             run.violation(f"C01:cli:{mode}:exit0-empty-stdout", "CLI exited 0 with nothing on stdout", rep)
         elif code == 1 and ob.get("stdout_len", 0) != 0:
